@@ -218,6 +218,15 @@ pub fn generate(
                 doc = docgen::deep_chain(126, Doc::Int(7));
                 special = Some("deep128".to_string());
             }
+            "struct_tree" => {
+                // 70 levels of kids[0]: 140 location components
+                let mut d = Doc::Map(vec![("value".to_string(), Doc::Int(7)), ("kids".to_string(), Doc::Seq(vec![]))]);
+                for _ in 0..70 {
+                    d = Doc::Map(vec![("value".to_string(), Doc::Int(1)), ("kids".to_string(), Doc::Seq(vec![d]))]);
+                }
+                doc = d;
+                special = Some("deep128".to_string());
+            }
             "json" | "probe" => {
                 doc = docgen::deep_seq(127, Doc::Int(7));
                 special = Some("deep128".to_string());
